@@ -30,3 +30,54 @@ pub fn guarded_dec(v: W, flip: bool) -> G {
         W::B => G::B,
     }
 }
+
+// ---- C19 R19-3 fixture: a conditional reduction that tests `>` instead of `>=`
+#[derive(Clone, Copy, PartialEq)]
+pub struct BigInt(pub [u64; 4]);
+impl PartialOrd for BigInt {
+    fn partial_cmp(&self, o: &Self) -> Option<std::cmp::Ordering> {
+        for i in (0..4).rev() {
+            if self.0[i] != o.0[i] {
+                return self.0[i].partial_cmp(&o.0[i]);
+            }
+        }
+        Some(std::cmp::Ordering::Equal)
+    }
+}
+pub struct Fp(pub [u64; 4]);
+pub trait PrimeField {
+    fn into_bigint(self) -> BigInt;
+}
+impl PrimeField for Fp {
+    fn into_bigint(self) -> BigInt {
+        BigInt(self.0)
+    }
+}
+pub trait BigInteger {
+    fn sub_with_borrow(&mut self, o: &Self) -> bool;
+}
+impl BigInteger for BigInt {
+    fn sub_with_borrow(&mut self, o: &Self) -> bool {
+        let mut borrow = false;
+        for i in 0..4 {
+            let (x, b1) = self.0[i].overflowing_sub(o.0[i]);
+            let (y, b2) = x.overflowing_sub(borrow as u64);
+            self.0[i] = y;
+            borrow = b1 || b2;
+        }
+        borrow
+    }
+}
+pub const MODULUS: BigInt = BigInt([0x43e1f593f0000001, 0x2833e84879b97091, 0xb85045b68181585d, 0x30644e72e131a029]);
+pub fn sink(x: BigInt) -> u64 {
+    x.0[0]
+}
+pub fn cmp_gt_then_sub(a: Fp, b: Fp) -> u64 {
+    let a = a.into_bigint();
+    let b = b.into_bigint();
+    let mut d = BigInt([a.0[0] | b.0[0], a.0[1] | b.0[1], a.0[2] | b.0[2], a.0[3] | b.0[3]]);
+    if d > MODULUS {
+        d.sub_with_borrow(&MODULUS);
+    }
+    sink(d)
+}
